@@ -26,7 +26,7 @@ func DrawLayout(t *rapid.T, variant string, f *ir.File, separate *bool) *ir.Layo
 	useGoPackage := sep || rapid.Bool().Draw(t, "go_package")
 	if useGoPackage {
 		name := rapid.SampledFrom(pkgNames).Draw(t, "structpkg")
-		mid := rapid.SampledFrom([]string{"", "api/", "gen/go/", "x.y/"}).Draw(t, "structmid")
+		mid := rapid.SampledFrom([]string{"", "api/", "gen/go/", "x.y/", "AcmeCorp/", "Gen/Types/"}).Draw(t, "structmid")
 		l.StructDir = variant + "/" + mid + name
 		l.StructPath = ir.Module + "/" + l.StructDir
 		l.StructName = name
@@ -91,9 +91,11 @@ func DrawTypes(t *rapid.T, f *ir.File, many ...bool) []string {
 			deepest, best = n, d
 		}
 	}
+	// one case in four selects most messages, so that nested types occur below several roots
+	manyByChance := rapid.IntRange(0, 3).Draw(t, "manytypes0") == 0
 	var out []string
 	for _, n := range c {
-		if len(many) > 0 && many[0] {
+		if (len(many) > 0 && many[0]) || manyByChance {
 			if rapid.IntRange(0, 5).Draw(t, "type?") != 0 {
 				out = append(out, n)
 			}
